@@ -67,12 +67,25 @@ def err_of_message(node):
 
 
 def exc_class(node):
+    """class name of `raise Cls` / `raise Cls(message)`; the message is evaluated eagerly, so it must be a
+    string constant or an f-string over plain names"""
     if node is None:
         raise Untranslatable('bare raise')
     f = node.func if isinstance(node, ast.Call) else node
-    if isinstance(f, ast.Name):
-        return f.id
-    raise Untranslatable('raise of ' + ast.dump(node)[:60])
+    if not isinstance(f, ast.Name):
+        raise Untranslatable('raise of ' + ast.dump(node)[:60])
+    if isinstance(node, ast.Call):
+        if node.keywords or len(node.args) > 1:
+            raise Untranslatable('exception arguments ' + ast.dump(node)[:60])
+        for a in node.args:
+            if isinstance(a, ast.Constant) and isinstance(a.value, str):
+                continue
+            if isinstance(a, ast.JoinedStr) and all(
+                    isinstance(v, ast.Constant) or (isinstance(v, ast.FormattedValue) and v.format_spec is None
+                                                     and isinstance(v.value, ast.Name)) for v in a.values):
+                continue
+            raise Untranslatable('exception message is not a constant / f-string over names: ' + ast.dump(a)[:60])
+    return f.id
 
 
 def exits(stmts):
@@ -113,8 +126,9 @@ def assigned(stmts):
 class V:
     """a translated value: ty in num | nat | bool | chars | parts | obj | g | og | onat | groups | none"""
 
-    def __init__(self, ty, a=None, b=None):
+    def __init__(self, ty, a=None, b=None, maybe=False):
         self.ty, self.a, self.b = ty, a, b     # num: a = value (Rat), b = kind (Bool); others: a
+        self.maybe = maybe                     # bound on some paths only (0 on the others, see `guard`)
 
     def comps(self):
         return [self.a, self.b] if self.ty == 'num' else [self.a]
@@ -140,6 +154,27 @@ class Tr:
         self.n = 0
         self.ret, self.raise_, self.cont = ret, raise_, cont
         self.prefix, self.rtype, self.stage_n, self.defs = None, None, 0, []     # staging (see rest_call)
+        self.guards = []    # names tested by the conditions that guard the current position
+                            # (if body, tail of `and`/`or`, arm of a conditional expression)
+
+    def read(self, name, v):
+        """A name that is bound on some paths only (`v.maybe` = the names tested by the ifs under which it
+        is bound) may be read only where a condition over one of these names guards the read: Python relies
+        on that guard to avoid the NameError; the translation gives the name the value 0 on the other paths."""
+        if v.maybe and not any(g & v.maybe for g in self.guards):
+            raise Untranslatable(f'{name} may be unbound here')
+        return v
+
+    def guarded(self, test_nodes):
+        tr = self
+
+        class G:
+            def __enter__(self_):
+                tr.guards.append({n.id for t in test_nodes for n in ast.walk(t) if isinstance(n, ast.Name)})
+
+            def __exit__(self_, *exc):
+                tr.guards.pop()
+        return G()
 
     def fresh(self, base):
         self.n += 1
@@ -159,7 +194,7 @@ class Tr:
         if isinstance(node, ast.Name) and node.id in CONSTS and node.id not in env:
             return CONSTS[node.id]
         if isinstance(node, ast.Name) and node.id in env and env[node.id].ty == 'nat':
-            return env[node.id].a
+            return self.read(node.id, env[node.id]).a
         if isinstance(node, ast.BinOp) and isinstance(node.op, ast.Mult):
             a, b = self.nat_expr(node.left, env), self.nat_expr(node.right, env)
             if b.isdigit() and not a.isdigit():
@@ -173,7 +208,7 @@ class Tr:
             return self.rat_const(node.value), 'true' if isinstance(node.value, float) else 'false'
         if isinstance(node, ast.Name):
             if node.id in env:
-                v = env[node.id]
+                v = self.read(node.id, env[node.id])
                 if v.ty == 'num':
                     return v.a, v.b
                 if v.ty == 'nat':
@@ -233,7 +268,9 @@ class Tr:
             pre, c, env2 = self.cond(node.test, env)
             if pre:
                 raise Untranslatable('walrus in a conditional expression')
-            return f'(if {c} then {self.string(node.body, env)} else {self.string(node.orelse, env)})'
+            with self.guarded([node.test]):
+                arms = (self.string(node.body, env), self.string(node.orelse, env))
+            return f'(if {c} then {arms[0]} else {arms[1]})'
         if isinstance(node, ast.JoinedStr):
             out = []
             for part in node.values:
@@ -280,8 +317,9 @@ class Tr:
         if isinstance(test, ast.BoolOp):
             pre, c, env = self.cond(test.values[0], env)
             parts = [c]
-            for v in test.values[1:]:
-                p2, c2, e2 = self.cond(v, env)
+            for j, v in enumerate(test.values[1:], start=1):
+                with self.guarded(test.values[:j]):
+                    p2, c2, e2 = self.cond(v, env)
                 if p2:
                     raise Untranslatable('walrus in an operand that is not always evaluated')
                 parts.append(c2)
@@ -308,7 +346,7 @@ class Tr:
                 return [], f'(!{v.b})', env
             raise Untranslatable(f'isinstance({test.args[0].id}, {test.args[1].id})')
         if isinstance(test, ast.Name) and test.id in env:
-            v = env[test.id]
+            v = self.read(test.id, env[test.id])
             if v.ty == 'bool':
                 return [], v.a, env
             if v.ty == 'num':
@@ -373,15 +411,15 @@ class Tr:
                 params.append(f'({name}_v : Rat)')
                 args.append(v.a)
                 if v.b in ('true', 'false'):
-                    env2[name] = V('num', f'{name}_v', v.b)
+                    env2[name] = V('num', f'{name}_v', v.b, maybe=v.maybe)
                 else:
                     params.append(f'({name}_f : Bool)')
                     args.append(v.b)
-                    env2[name] = V('num', f'{name}_v', f'{name}_f')
+                    env2[name] = V('num', f'{name}_v', f'{name}_f', maybe=v.maybe)
             elif v.ty in LEAN_TY:
                 params.append(f'({name} : {LEAN_TY[v.ty]})')
                 args.append(v.a)
-                env2[name] = V(v.ty, name)
+                env2[name] = V(v.ty, name, maybe=v.maybe)
             else:
                 raise Untranslatable(f'{name} of type {v.ty} across a statement boundary')
         self.stage_n += 1
@@ -406,8 +444,8 @@ class Tr:
             if self.cont is None:
                 raise Untranslatable('continue outside the loop')
             return self.cont(env, ind)
-        if isinstance(s, (ast.Assert, ast.Pass)):
-            return self.block(rest, env, ind, k)      # `assert match is not None  # mypy`
+        if isinstance(s, ast.Pass):
+            return self.block(rest, env, ind, k)
         if isinstance(s, ast.If):
             special = self.special_if(s, rest, env, ind, k)
             if special is not None:
@@ -438,8 +476,9 @@ class Tr:
                 return ''
             saved = (self.n, self.stage_n, len(self.defs), self.prefix)
             self.prefix = None
-            self.block(list(s.body), env_then, ind + 1, probe_k)      # dry runs: only types and kinds are kept
-            self.block(list(s.orelse), env_else, ind + 1, probe_k)
+            with self.guarded([s.test]):
+                self.block(list(s.body), env_then, ind + 1, probe_k)      # dry runs: only types and kinds are kept
+                self.block(list(s.orelse), env_else, ind + 1, probe_k)
             self.n, self.stage_n, self.prefix = saved[0], saved[1], saved[3]
             del self.defs[saved[2]:]
 
@@ -447,14 +486,21 @@ class Tr:
                 ks = kinds.get(n, set())
                 return next(iter(ks)) if len(ks) == 1 and next(iter(ks)) in ('true', 'false') else None
 
+            maybe_after = {}
+            test_names = frozenset(n.id for n in ast.walk(s.test) if isinstance(n, ast.Name))
+
             def final_tuple(e, i):
                 comps = []
                 for n in names:
                     if n in e:
+                        if e[n].maybe:
+                            maybe_after[n] = maybe_after.get(n, frozenset()) | e[n].maybe
                         comps += [e[n].a] if (e[n].ty == 'num' and static_kind(n)) else e[n].comps()
                     elif probe.get(n) in DEFAULTS:
+                        maybe_after[n] = maybe_after.get(n, frozenset()) | test_names
                         comps.append(DEFAULTS[probe[n]])
                     elif probe.get(n) == 'num':                # unbound on this path: 0 (an int)
+                        maybe_after[n] = maybe_after.get(n, frozenset()) | test_names
                         kinds.setdefault(n, set()).add('false')
                         comps += ['(0 : Rat)'] if static_kind(n) else ['(0 : Rat)', 'false']
                     else:
@@ -470,8 +516,9 @@ class Tr:
             outer = (self.prefix, self.rtype)
             if self.prefix is not None:
                 self.rtype = ' × '.join(comp_types)
-            tthen = self.block(list(s.body), env_then, ind + 1, final_tuple)
-            telse = self.block(list(s.orelse), env_else, ind + 1, final_tuple)
+            with self.guarded([s.test]):
+                tthen = self.block(list(s.body), env_then, ind + 1, final_tuple)
+                telse = self.block(list(s.orelse), env_else, ind + 1, final_tuple)
             self.prefix, self.rtype = outer
             env2 = dict(env1)
             binders = []
@@ -483,14 +530,14 @@ class Tr:
                     nv = self.fresh(n + '_v')
                     binders.append(nv)
                     if static_kind(n):
-                        env2[n] = V('num', nv, static_kind(n))
+                        env2[n] = V('num', nv, static_kind(n), maybe=maybe_after.get(n, False))
                     else:
                         nk = self.fresh(n + '_f')
-                        env2[n] = V('num', nv, nk)
+                        env2[n] = V('num', nv, nk, maybe=maybe_after.get(n, False))
                         binders.append(nk)
                 else:
                     nm = self.fresh(n)
-                    env2[n] = V(ty, nm)
+                    env2[n] = V(ty, nm, maybe=maybe_after.get(n, False))
                     binders.append(nm)
             pat = '(' + ', '.join(binders) + ')' if len(binders) != 1 else binders[0]
             return (head + f'{pad}let {pat} :=\n{pad}  if {c} then\n' + textwrap.indent(tthen, '  ')
@@ -555,8 +602,41 @@ class Tr:
 
 # ---------------------------------------------------------------------------------------------- targets
 
+BUILTINS_USED = ('float', 'int', 'round', 'max', 'divmod', 'zip', 'reversed', 'any', 'isinstance',
+                 'ValueError', 'TypeError')
+
+
+def check_module(timeunits):
+    """the names the translation resolves by NAME must mean what the translator assumes"""
+    import builtins
+    import edzed.utils
+    from edzed.utils import tconst
+    g = vars(timeunits)
+    for n in BUILTINS_USED:
+        if n in g and g[n] is not getattr(builtins, n):
+            raise Untranslatable(f'the module rebinds the built-in name {n}')
+    for n in CONSTS:
+        if n not in g or type(g[n]) is not int or g[n] != getattr(tconst, n) or type(getattr(tconst, n)) is not int:
+            raise Untranslatable(f'{n} in timeunits is not the int constant of tconst.py')
+    for n in PATTERNS:
+        import re
+        if not isinstance(g.get(n), re.Pattern):
+            raise Untranslatable(f'{n} is not a compiled pattern')
+    for n in ('convert', 'time_period', 'timestr', 'timestr_approx'):
+        if getattr(edzed.utils, n, None) is not g.get(n):
+            raise Untranslatable(f'edzed.utils.{n} is not timeunits.{n}')
+
+
 def fn_ast(fn):
-    return ast.parse(textwrap.dedent(inspect.getsource(fn))).body[0]
+    """the AST of a plain function of the module: no decorator, no wrapper, defined where it is looked up"""
+    if not inspect.isfunction(fn) or hasattr(fn, '__wrapped__') or fn.__module__ != 'edzed.utils.timeunits':
+        raise Untranslatable(f'{getattr(fn, "__name__", fn)} is not a plain function of timeunits.py')
+    node = ast.parse(textwrap.dedent(inspect.getsource(fn))).body[0]
+    if not isinstance(node, ast.FunctionDef) or node.name != fn.__name__ or fn.__code__.co_name != fn.__name__:
+        raise Untranslatable(f'source of {fn.__name__} is not its definition')
+    if node.decorator_list:
+        raise Untranslatable(f'{fn.__name__} is decorated')
+    return node
 
 
 def check_args(fn, names, defaults=None):
@@ -692,11 +772,18 @@ def tr_convert(timeunits):
     fn = fn_ast(timeunits._convert)
     check_args(fn, ['tstr'])
     body = [s for s in fn.body if not (isinstance(s, ast.Expr) and isinstance(s.value, ast.Constant))]
-    body = [s for s in body if not isinstance(s, ast.Assert)]
     idiom = find_match_idiom(body[0]) if body else None
     if idiom is None:
         raise Untranslatable('the first statement is not the pattern-matching idiom')
     pats, mvar, mraise = idiom
+
+    def harmless_assert(st):
+        """`assert <match variable> is not None` right after the idiom (true by the idiom; for mypy)"""
+        t = st.test if isinstance(st, ast.Assert) else None
+        return (t is not None and st.msg is None and isinstance(t, ast.Compare) and len(t.ops) == 1
+                and isinstance(t.ops[0], ast.IsNot) and isinstance(t.left, ast.Name) and t.left.id == mvar
+                and isinstance(t.comparators[0], ast.Constant) and t.comparators[0].value is None)
+    body = [body[0]] + [st for i, st in enumerate(body[1:], start=1) if not (i == 1 and harmless_assert(st))]
     if exc_class(mraise.exc) != 'ValueError':
         raise Untranslatable('no-match raises ' + exc_class(mraise.exc))
     loops = [i for i, s in enumerate(body) if isinstance(s, ast.For)]
@@ -798,6 +885,41 @@ def tr_convert(timeunits):
     return step + '\n\n' + main
 
 
+def tr_convert_wrapper(timeunits):
+    """`convert`: `try: return _convert(tstr)  except ValueError as err: raise ValueError(f"…{err}…") from None`
+    - the value or the SAME reason (the inner message is part of the new one); nothing else is caught"""
+    fn = fn_ast(timeunits.convert)
+    check_args(fn, ['tstr'])
+    if fn_ast(timeunits._convert).name != '_convert':
+        raise Untranslatable('_convert')
+    body = [s for s in fn.body if not (isinstance(s, ast.Expr) and isinstance(s.value, ast.Constant))]
+    if not (len(body) == 1 and isinstance(body[0], ast.Try)):
+        raise Untranslatable('convert is not a single try statement')
+    t = body[0]
+    if t.orelse or t.finalbody or len(t.handlers) != 1 or len(t.body) != 1:
+        raise Untranslatable('shape of the try statement')
+    r = t.body[0]
+    if not (isinstance(r, ast.Return) and isinstance(r.value, ast.Call) and isinstance(r.value.func, ast.Name)
+            and r.value.func.id == '_convert' and len(r.value.args) == 1 and not r.value.keywords
+            and isinstance(r.value.args[0], ast.Name) and r.value.args[0].id == 'tstr'):
+        raise Untranslatable('the try body is not `return _convert(tstr)`')
+    h = t.handlers[0]
+    if not (isinstance(h.type, ast.Name) and h.type.id == 'ValueError' and h.name):
+        raise Untranslatable('the handler is not `except ValueError as <name>`')
+    if not (len(h.body) == 1 and isinstance(h.body[0], ast.Raise) and h.body[0].exc is not None):
+        raise Untranslatable('the handler does not just raise')
+    exc = h.body[0].exc
+    if exc_class(exc) != 'ValueError':
+        raise Untranslatable('the handler raises ' + exc_class(exc))
+    msg = exc.args[0] if isinstance(exc, ast.Call) and exc.args else None
+    if not (isinstance(msg, ast.JoinedStr) and any(
+            isinstance(v, ast.FormattedValue) and isinstance(v.value, ast.Name) and v.value.id == h.name
+            and v.conversion == -1 for v in msg.values)):
+        raise Untranslatable('the new message does not contain the inner one')
+    return ('def convertPublic (tstr : List Char) : Except Err Rat :=\n'
+            '  match convert tstr with\n  | .ok v => .ok v\n  | .error err => .error err')
+
+
 def secs_env():
     return {'seconds': V('num', '(Py.secsVal seconds)', '(Py.secsIsFloat seconds)')}
 
@@ -839,6 +961,7 @@ def tr_timestr_approx(timeunits):
 TARGETS = (
     ('timePeriod', 'timeunits.time_period', tr_time_period),
     ('convertStep, convert', 'timeunits._convert', tr_convert),
+    ('convertPublic', 'timeunits.convert', tr_convert_wrapper),
     ('timestr', 'timeunits.timestr', tr_timestr),
     ('timestrApprox', 'timeunits.timestr_approx', tr_timestr_approx),
 )
@@ -852,6 +975,7 @@ def main_timeunits(outfile, write_if_changed=None):
          'namespace Edzed.Gen.TrTu', 'open Edzed.TimeUnits', '']
     for lean_name, doc, fn in TARGETS:
         try:
+            check_module(timeunits)
             text = fn(timeunits)
             L.append(f'/-- translated from `{doc}` -/')
             L.append(text)
